@@ -140,6 +140,23 @@ func genC04(r *Rand, tier string) *Case {
 		c.Server.TLS = "empty"
 	}
 	kind := r.Intn(10)
+	if r.Chance(1, 60) {
+		// long names: a statement is defined under a 3-12 KiB name, then messages
+		// refer to other long names that do not exist (whatever the server computes
+		// about them stays within a constant factor of the limit)
+		lim := r.PickInt(16384, 65536)
+		c := &Case{Variant: "long-names", Server: ServerCfg{Limit: lim}, Programs: map[string]*Program{"ln": {Stmts: []*StmtProg{{Ops: []Op{{K: "complete", Tag: "OK"}}}}}}}
+		n := r.PickInt(3000, 6000, 12000)
+		a, b := strings.Repeat("a", n), strings.Repeat("b", n-1)+"c"
+		msgs := []pgwire.FMsg{{K: "P", S1: a, S2: "ln"}, {K: "S"}, {K: "B", S1: b, S2: b}, {K: "S"}, {K: "D", Sub: 'S', S1: b}, {K: "E", S1: b}, {K: "C", Sub: 'S', S1: b}, {K: "S"}}
+		var steps []Step
+		steps = append(steps, Step{Msgs: []pgwire.FMsg{startupMsg("u", "d")}})
+		for i := range msgs {
+			steps = append(steps, Step{Msgs: msgs[i : i+1]})
+		}
+		c.Conns = []ConnCase{{Steps: steps, Measure: true}}
+		return withBystander(c)
+	}
 	if r.Chance(1, 500) {
 		return c04CopyRows(int64(r.PickInt(50000, 120000)), r.PickInt(4096, 65536))
 	}
